@@ -3,6 +3,7 @@
 #include "Stream/MemoryReader.h"
 #include "Stream/DynamicMemoryWriter.h"
 #include <climits>
+#include <memory>
 
 using namespace verif;
 using namespace OP2Utility;
@@ -109,6 +110,39 @@ void map_case(unsigned lg, uint32_t h, uint64_t seed, bool fullBijection, Stats&
 			std::vector<uint8_t> exp = refmap::canonical(mm);
 			V_CHECK(now == exp, ctx << " serialised map after setters differs from the model");
 		}
+	}
+	if (n <= 70000) {
+		// ONE object holding maps of different shapes one after the other: it is read as a map of the same width and another height, queried (last of
+		// all in its last 32-column block), then assigned the map under test (moved from a fresh read, or copied from the live object); its very
+		// first queries afterwards - in that same block first - must address the new map
+		LMap other; other.lgWidth = lg; other.height = h + 1 + uint32_t(seed % 3); other.versionTag = 0x1011; other.tiles.resize(size_t(W * other.height)); for (size_t i = 0; i < other.tiles.size(); ++i) other.tiles[i] = uint32_t(i * 2246822519u + 3) & ~uint32_t(0xFFE0);
+		other.mappings.push_back({1, 2, 3, 4});
+		for (int how = 0; how < 2; ++how) {
+			Map obj = load(other);
+			(void)obj.GetCellType(0, 0); (void)obj.GetCellType(W - 1, other.height - 1); (void)obj.GetLavaPossible(W - 1, 0);
+			if (how == 0) obj = load(m); else obj = map;
+			V_CHECK(obj.WidthInTiles() == W && obj.HeightInTiles() == h && obj.TileCount() == n, ctx << " an object assigned a new map reports the old dimensions");
+			for (uint64_t k = 0; k < 20; ++k) { uint64_t x = k == 0 ? W - 1 : k == 1 ? W - 1 - (W > 32 ? 7 : 0) : (k * 0x9E3779B97F4A7C15ULL >> 20) % W, y = k == 0 ? h - 1 : k == 1 ? 0 : (k * 0xC2B2AE3D27D4EB4FULL >> 24) % h; uint32_t w = m.tiles[refmap::tile_index(x, y, h)];
+				V_CHECK(static_cast<uint32_t>(obj.GetCellType(x, y)) == refmap::tile_cell(w) && obj.GetTileMappingIndex(x, y) == refmap::tile_mapping(w) && obj.GetLavaPossible(x, y) == refmap::tile_lava_possible(w), ctx << " an object that held a map of height " << other.height << " before (assigned by " << (how ? "copy" : "move") << ") addresses (" << x << "," << y << ") of its new map wrongly"); }
+			obj.SetCellType(static_cast<CellType>((refmap::tile_cell(m.tiles[refmap::tile_index(W - 1, 0, h)]) + 1) & 31), W - 1, 0);
+			for (size_t i = 0; i < n; ++i) { uint32_t want = m.tiles[i]; if (i == refmap::tile_index(W - 1, 0, h)) want = (want & ~31u) | ((refmap::tile_cell(want) + 1) & 31); if (mapgen::tile_word(obj.tiles[i]) != want) V_CHECK(false, ctx << " a setter on an object that was assigned a new map changed (or failed to change) tile " << i); }
+		}
+		// a copy answers from its OWN tables: a tile is queried on A, A is copied to B, the mapping entry behind that tile is then changed in A (or A
+		// is destroyed); B's first query for that tile reports B's entry, A reports its changed one
+		for (int how = 0; how < 2; ++how) {
+			auto A = std::make_unique<Map>(load(m));
+			uint64_t x = (seed >> 9) % W, y = (seed >> 29) % h; uint32_t mi = refmap::tile_mapping(m.tiles[refmap::tile_index(x, y, h)]);
+			V_CHECK(A->GetTilesetIndex(x, y) == m.mappings[mi][0] && A->GetImageIndex(x, y) == m.mappings[mi][1], ctx << " accessors of a freshly read map");
+			Map B = *A;
+			if (how == 0) { A->tileMappings[mi].tilesetIndex = uint16_t(m.mappings[mi][0] ^ 0x5555); A->tileMappings[mi].tileGraphicIndex = uint16_t(m.mappings[mi][1] + 1);
+				V_CHECK(A->GetTilesetIndex(x, y) == uint16_t(m.mappings[mi][0] ^ 0x5555) && A->GetImageIndex(x, y) == uint16_t(m.mappings[mi][1] + 1), ctx << " after the mapping entry " << mi << " was changed the accessors still report the old entry"); }
+			else A.reset();
+			V_CHECK(B.GetTilesetIndex(x, y) == m.mappings[mi][0] && B.GetImageIndex(x, y) == m.mappings[mi][1], ctx << " a copy reports tileset " << B.GetTilesetIndex(x, y) << " image " << B.GetImageIndex(x, y) << " at (" << x << "," << y << ") after its original was " << (how ? "destroyed" : "changed") << "; its own mapping entry " << mi << " holds " << m.mappings[mi][0] << " / " << m.mappings[mi][1]);
+			B.SetLavaPossible(!refmap::tile_lava_possible(m.tiles[refmap::tile_index(x, y, h)]), x, y);
+			V_CHECK(B.GetLavaPossible(x, y) == !refmap::tile_lava_possible(m.tiles[refmap::tile_index(x, y, h)]), ctx << " setter on a copy");
+			if (A) V_CHECK(A->GetLavaPossible(x, y) == refmap::tile_lava_possible(m.tiles[refmap::tile_index(x, y, h)]), ctx << " a setter on a copy changed the original");
+		}
+		st.cls("object_reuse_and_copies");
 	}
 	st.cls("width:2^" + std::to_string(lg)); st.cls("coordinates_checked", n);
 	if (W >= 64 && h >= 2) st.nt(hmix(hmix(lg, h), seed));
